@@ -9,6 +9,7 @@ Case lines (integers in decimal, a string is a length-prefixed list of signed ch
   from_chars[_ovf] <ty> <base> <str>        class, ptr-first, value left in the out arg  (ref: std::from_chars)
   roundtrip <ty> <base> <value>             from_chars(to_chars(v))                      (ref: v)
   to_integer <ty> <skipws> <plus> <base> <str>    etl API: error, end, value             (model tie only)
+  to_integer_nc <ty> <skipws> <plus> <base> <str>  the same with check_overflow = false (wraps / "ub")  (model tie only)
   strtol|strtoll|strtoul|strtoull[_n] <base> <str>   value, end-str                      (ref: glibc)
   stoi|stol|stoll|stoul|stoull[_n] <base> <str>      value, *pos                         (ref: std::sto*, na when it throws)
   strto_integer <ty> <base> <str>           detail::strto_integer<T>: error member, end, value  (ref: glibc + errno for 64-bit T; spec for all)
@@ -22,6 +23,8 @@ reference exactly.
 """
 ID = "C10"
 LEVEL = "proof"
+# translator tie: the cctype kernels are regenerated from the current headers on every run (coq/C10/GenEquiv.v)
+TRANSLATE = [("translate/kernels_cctype.json", "coq/Gen/Gen_cctype.v")]
 UBTRAP = ["-fsanitize=signed-integer-overflow,integer-divide-by-zero", "-fsanitize-undefined-trap-on-error"]
 HARNESSES = [
     {"name": "main", "src": "harness.cpp", "flags": ["-O1", "-DTETL_ENABLE_CONTRACT_CHECKS=1"] + UBTRAP},
@@ -197,9 +200,9 @@ def gen(tier, rng):
             lens = sorted({0, max(0, n - 1), n, n + 1})
         for ln in lens:
             out.append(f"to_chars {ty} {b} {ln} {v}")
-        if not quick or rng.random() < .5:
+        if not quick or rng.random() < .3:
             out.append(f"to_chars_buf {ty} {b} {n + 2} {v}")
-        if not quick or rng.random() < .5:
+        if not quick or rng.random() < .3:
             out.append(f"to_chars_buf {ty} {b} {max(0, n - 1)} {v}")
 
     # ---- formatting: 8-bit exhaustive
@@ -207,7 +210,7 @@ def gen(tier, rng):
         lo, hi = lim(ty)
         for v in range(lo, hi + 1):
             for b in allbases:
-                if ty == "c" and quick and b not in fullbases and v % 3:
+                if ty == "c" and quick and (b not in fullbases or v % 3):   # char == signed char here; sc is exhaustive
                     continue
                 fmt_cases(ty, v, b, b in fullbases and (not quick or ty != "c"))
                 out.append(f"roundtrip {ty} {b} {v}")
@@ -300,6 +303,9 @@ def gen(tier, rng):
                 if rng.random() < (.25 if quick else .5):
                     ws, plus = rng.randrange(2), rng.randrange(2)
                     out.append(f"to_integer {ty} {ws} {plus} {b} {enc(cs)}")
+                if rng.random() < (.15 if quick else .5):
+                    ws, plus = rng.randrange(2), rng.randrange(2)
+                    out.append(f"to_integer_nc {ty} {ws} {plus} {b} {enc(cs)}")
     # 8-bit from_chars: every value +- overflow by one unit / one digit in every base
     for ty in ("sc", "uc", "c"):
         lo, hi = lim(ty)
